@@ -1922,15 +1922,38 @@ func c09NoticeMeansEnd(c *Ctx, r *Report, rule string) {
 		return
 	}
 	n := 0
+	isNoticeSend := func(in ssa.Instruction) bool {
+		sd, ok := in.(*ssa.Send)
+		return ok && (chanID(sd.Chan) == "field layer4.packetConn.closeCh" || strings.Contains(typeStr(sd.Chan.Type()), "packetConn"))
+	}
+	// helpers of the package (called synchronously) that send the notice count as the notice at their call site
+	senders := map[*ssa.Function]bool{}
 	for g := range c.reachSync(fn) {
-		if g.Pkg != fn.Pkg || g != fn {
+		if g == fn || g.Pkg != fn.Pkg {
 			continue
 		}
+		for h := range c.reachSync(g) {
+			if h.Pkg != fn.Pkg || h == fn {
+				continue
+			}
+			for _, b := range h.Blocks {
+				for _, in := range b.Instrs {
+					if isNoticeSend(in) {
+						senders[g] = true
+					}
+				}
+			}
+		}
+	}
+	for _, g := range []*ssa.Function{fn} {
 		for _, b := range g.Blocks {
 			for _, in := range b.Instrs {
-				sd, ok := in.(*ssa.Send)
-				if !ok || chanID(sd.Chan) != "field layer4.packetConn.closeCh" && !strings.Contains(typeStr(sd.Chan.Type()), "packetConn") {
-					continue
+				sd := in
+				if !isNoticeSend(in) {
+					cl, ok := in.(*ssa.Call)
+					if !ok || cl.Call.StaticCallee() == nil || !senders[cl.Call.StaticCallee()] {
+						continue
+					}
 				}
 				n++
 				// every return reachable from the send
@@ -1944,7 +1967,7 @@ func c09NoticeMeansEnd(c *Ctx, r *Report, rule string) {
 					started := !first || false
 					for _, x := range bb.Instrs {
 						if first && !started {
-							if x == ssa.Instruction(sd) {
+							if x == sd {
 								started = true
 							}
 							continue
